@@ -99,6 +99,9 @@ def one_case(spec, opts, fault, ftype="exception", pre_runs=0):
         out.append(("C17:helper-task-left-in-workflow:%s" % tag, {"task_list": [t.ID for t in a.project.workflow.task_list]}))
     ok = err is None and int(a.project.status) == 1
     if ok:
+        # one entry per simulated step, counted by the harness observer while the inner run was going on (not read from the library's own clock)
+        if not fault and not opts.get("warn_error") and ex.steps and (a.project.time != ex.steps or len(a.project.cost_list) != ex.steps):
+            out.append(("C17:result-of-backward-run-has-fewer-or-more-entries-than-steps-were-simulated", {"steps_simulated": ex.steps, "time": a.project.time, "cost_list_length": len(a.project.cost_list)}))
         L = S.log_lengths(a)
         if len(set(L.values()) | {a.project.time}) != 1:
             out.append(("C17:logs-not-aligned-after-backward-run", {"time": a.project.time, "lengths": sorted(set(L.values()))}))
